@@ -145,6 +145,49 @@ def rule_sign_reaches_every_ok(col, facts):
     col.floor(R, "Ok exits of the float entry points", n, 8)
 
 
+def rule_special_sees_untouched_bytes(col, facts):
+    """ORG-special: the special-value matcher must see the bytes exactly as they stand after the sign.  A
+    component iterator's peek()/is_consumed() *moves the shared cursor* over leading digit separators (that is
+    how skipping works), so the entry points must not open an integer view on the very `Bytes` they later
+    hand (cloned) to the special parser: `_nan` was accepted as NaN by formats that allow leading integer
+    separators but no separators in specials."""
+    R = "ORG-special"
+    from rules import grd as G
+    n = 0
+    for name in ("parse_complete", "fast_path_complete", "parse_partial", "fast_path_partial"):
+        f = facts.fn(PF + "parse::" + name)
+        special_roots = set()
+        for bb, c, a, d, t in f.calls():
+            cn = last_seg(callee_name(c))
+            if cn in ("parse_special", "parse_partial_special") and a:
+                e = strip_casts(op_expr(f, a[0]))
+                # byte.clone()
+                if e[0] == "call" and last_seg(e[1]) == "clone" and e[2]:
+                    special_roots.add(G.root(e[2][0]))
+                else:
+                    special_roots.add(G.root(e))
+        col.check(R, "%s:special-call" % name, bool(special_roots), "no call of the special parser found", f.loc())
+        viewed = []
+        # a root that is itself `X.clone()` is a snapshot of X: it must have been taken before any view on X
+        snapshots = {}
+        for r in special_roots:
+            if r[0] == "call" and last_seg(r[1]) == "clone" and r[2] and len(r) > 3:
+                blk = [bb for bb, c, a, d, t in f.calls() if d and d[0] == r[3] and not d[1]]
+                if blk:
+                    snapshots[G.root(r[2][0])] = blk[0]
+        for bb, c, a, d, t in f.calls():
+            if callee_name(c).endswith(G.VIEW_CTORS) and a:
+                r = G.root(op_expr(f, a[0]))
+                if r in special_roots:
+                    viewed.append(f.loc(f.blocks[bb]["ts"]))
+                elif r in snapshots and not (snapshots[r] != bb and f.dominates(snapshots[r], bb)):
+                    viewed.append(f.loc(f.blocks[bb]["ts"]))
+        n += 1
+        col.check(R, "%s:no-view-on-the-bytes-of-the-special" % name, not viewed,
+                  "a digit-iterator view is opened on the same Bytes that is later handed to the special parser (%d site(s)): its peek() skips leading digit separators by moving the shared cursor, so `_nan` / `-_inf` are accepted although the format has no special_digit_separator" % len(viewed), viewed[0] if viewed else f.loc())
+    col.floor(R, "float entry points examined", n, 4)
+
+
 def rule_write_specials(col, facts):
     R = "MPT-sign"
     wf = facts.fn(WF + "write::WriteFloat::write_float")
@@ -273,6 +316,7 @@ def run(col, configs, tier):
         guarded(col, rule_parse_specials, facts)
         guarded(col, rule_write_specials, facts)
         guarded(col, rule_sign_reaches_every_ok, facts)
+        guarded(col, rule_special_sees_untouched_bytes, facts)
         guarded(col, rule_special_classification, facts)
         from rules import extra as X2
         guarded(col, X2.rule_overflow_check_unconditional, facts)
